@@ -159,6 +159,8 @@ LINTS = [
      "the shortcut for a single element tests the length of another list than the one it reads"),
     ("early-exit-skips-traversal", lints.early_exit_skips_traversal, BEHAVIOURAL | {"C15"},
      "the visit of one kind of children is skipped when another kind is empty"),
+    ("none-then-attribute", lints.none_then_attribute, BEHAVIOURAL | {"C16", "C17"},
+     "a local is set to None under a condition and an attribute of it is read further down without a test"),
     ("memo-scope-owner", lints.memo_scope_owner_mismatch, BEHAVIOURAL,
      "a scope parented to one node is kept (setdefault) in a table that belongs to another node"),
     ("undefined-name", lints.undefined_names, BEHAVIOURAL | {"C17"},
@@ -183,7 +185,7 @@ def run_general(repo, run, R, pid, modules=MODULES):
                 props = set(domain)      # the lint is about this property's subject wherever it fires
             if name == "lost-reset" and isinstance(node, ast.Assign):
                 props = PERITER_PROPS.get(("%s.%s" % (mn, q), node.targets[0].id), props)
-            if name == "undefined-name":
+            if name in ("undefined-name", "none-then-attribute"):
                 props = props | {"C17"}    # an internal failure on whatever input reaches the statement
             if name == "container-option":
                 # the option that is read says which wrapper it configures; C14 is about where an option may be stated
